@@ -79,6 +79,62 @@ def facts_tuplegen(repo, lean):
 
 
 
+def facts_monadgen(repo, lean):
+    """Tie A for the generated monad family: harness/cmd/monad2lean TRANSLATES option/try/either/statet *_monad.go and
+    *_traverse.go of the working tree into Lean definitions over MonadOps (FpVerif/Gen/MonadGen.lean, not under version
+    control); the committed theorems of Spec/C01Gen.lean state, function by function, that the translated definition is the
+    hand-written model definition of Model/MonadFamily.lean (`rfl`, or for lawful packages where the Go code instantiates a
+    plain-callback parameter with a monadic-result function), that the set of functions is the expected one and that the
+    four packages carry the same template (`no_divergence`)."""
+    out = os.path.join(lean, 'FpVerif', 'Gen', 'MonadGen.lean')
+    os.makedirs(os.path.dirname(out), exist_ok=True)
+    harness = os.path.join(os.path.dirname(lean), 'harness')
+    env = dict(os.environ, GOFLAGS='-mod=mod', GOPROXY='off', GOSUMDB='off', GOTOOLCHAIN='local')
+    tmp_out = out + '.new.%d' % os.getpid()
+    p = subprocess.run(['go', 'run', './cmd/monad2lean', repo, tmp_out], cwd=harness, env=env, stdout=subprocess.PIPE,
+                       stderr=subprocess.STDOUT, text=True)
+    if p.returncode != 0 or not os.path.exists(tmp_out):
+        if os.path.exists(out):
+            os.remove(out)
+        return dict(error='monad2lean failed: ' + p.stdout[-800:], obligations=1)
+    # keep the old file (and its build products) when the translation did not change
+    if not os.path.exists(out) or open(out).read() != open(tmp_out).read():
+        os.replace(tmp_out, out)
+    else:
+        os.remove(tmp_out)
+    info = json.loads(p.stdout.strip().split('\n')[-1])
+    res = dict(translated=info['translated'], untranslatable=info['untranslatable'], divergent=info.get('divergent', []),
+               packages=info.get('packages', {}), external=info.get('external', {}), obligations=1,
+               generated='FpVerif/Gen/MonadGen.lean')
+    problems = []
+    if info['untranslatable']:
+        problems.append('outside the translated fragment: ' + json.dumps(info['untranslatable'])[:600])
+    if info.get('divergent'):
+        problems.append('the four packages no longer carry the same template: ' + json.dumps(info['divergent'])[:300])
+    if problems:
+        res['error'] = 'monad2lean: ' + '; '.join(problems)
+    return res
+
+
+def facts_all(*fs):
+    """several fact extractors for one check (C14: facts_tuplegen and facts_monadgen)"""
+    def run(repo, lean):
+        res, errors, obligations = {}, [], 0
+        for f in fs:
+            r = f(repo, lean)
+            obligations += r.pop('obligations', 0)
+            if r.get('error'):
+                errors.append(r.pop('error'))
+            res[f.__name__] = r
+        res['obligations'] = obligations
+        if errors:
+            res['error'] = '; '.join(errors)
+        return res
+    run.__name__ = 'facts_' + '_'.join(f.__name__.replace('facts_', '') for f in fs)
+    return run
+
+
+
 import re as _re
 
 def project_future(line):
@@ -135,7 +191,8 @@ ARITY_H = H('arity', 'oracle_arity', 8000, 400000, spec_level=True, nontrivial=l
 
 CHECKS = {
     'C01': dict(
-        spec=['FpVerif.Spec.C01', 'FpVerif.Spec.C01Inst', 'FpVerif.Spec.C01T', 'FpVerif.Spec.C01TExt', 'FpVerif.Spec.C01Coll', 'FpVerif.Spec.C16', 'FpVerif.Spec.C01Fn', 'FpVerif.Spec.C17'],
+        spec=['FpVerif.Spec.C01', 'FpVerif.Spec.C01Inst', 'FpVerif.Spec.C01T', 'FpVerif.Spec.C01TExt', 'FpVerif.Spec.C01Coll', 'FpVerif.Spec.C16', 'FpVerif.Spec.C01Fn', 'FpVerif.Spec.C17', 'FpVerif.Spec.C01Gen'],
+        facts=facts_all(facts_monadgen),
         harnesses=MONAD_H + [TRYOPT_H, ARITY_H, H('iter', 'oracle_iter', 4000, 400000, spec_level=True, project=project_iter, extra=dict(quick=['-prop', 'C12'], thorough=['-prop', 'C12'])),
                              H('eval', 'oracle_eval', 2000, 100000, spec_level=True, extra=dict(quick=['-deep', '20000'], thorough=['-deep', '200000'])),
                              # the function monads fn0 / fn1 (reader monad over the effect monad)
@@ -164,7 +221,8 @@ CHECKS = {
                      'iterators handed to FoldM/Traverse are viewed as the finite list they yield (pull behaviour: C12/C20)'],
     ),
     'C02': dict(
-        spec=['FpVerif.Spec.C02', 'FpVerif.Spec.C02Ext'],
+        spec=['FpVerif.Spec.C02', 'FpVerif.Spec.C02Ext', 'FpVerif.Spec.C01Gen'],
+        facts=facts_all(facts_monadgen),
         harnesses=MONAD_H + [TRYOPT_C02_H, ARITY_H, H('statet', 'oracle_statet', 3000, 100000, spec_level=True),
                              # future.Apply/Apply2 panic capture, future builders' suppliers after a failure
                              H('future', 'oracle_future', 2000, 100000, spec_level=True, project=project_future),
@@ -325,8 +383,8 @@ CHECKS = {
                      'user callbacks do not panic in the theorems'],
     ),
     'C14': dict(
-        spec=['FpVerif.Spec.C14', 'FpVerif.Spec.C14Fut', 'FpVerif.Spec.C14Misc', 'FpVerif.Spec.C14MiscFut', 'FpVerif.Spec.C14Gen'],
-        facts=facts_tuplegen,
+        spec=['FpVerif.Spec.C14', 'FpVerif.Spec.C14Fut', 'FpVerif.Spec.C14Misc', 'FpVerif.Spec.C14MiscFut', 'FpVerif.Spec.C14Gen', 'FpVerif.Spec.C01Gen'],
+        facts=facts_all(facts_tuplegen, facts_monadgen),
         harnesses=[H('arity', 'oracle_arity', 16000, 1600000, spec_level=True,
                      nontrivial=lambda op, impl: op.count(' ') >= 3),
                    # the eq/ord/hash/monoid/clone TupleN families live in the typeclass machinery (C09-C11, C18)
@@ -397,7 +455,8 @@ CHECKS = {
     'C17': dict(
         # Spec.C17: the hand-written core (Get/Put/Modify/FlatMap/FoldM/Concat/Recover*); Spec.C01 + C01Inst: the generated
         # statet_monad.go family as the generic template instantiated at the (lawful) StateT operations
-        spec=['FpVerif.Spec.C17', 'FpVerif.Spec.C17Ext', 'FpVerif.Spec.C01', 'FpVerif.Spec.C01Inst'],
+        spec=['FpVerif.Spec.C17', 'FpVerif.Spec.C17Ext', 'FpVerif.Spec.C01', 'FpVerif.Spec.C01Inst', 'FpVerif.Spec.C01Gen'],
+        facts=facts_all(facts_monadgen),
         harnesses=[H('statet', 'oracle_statet', 4000, 200000, spec_level=True),
                    # state threading / short-circuit of the generated statet_monad.go family (Ap, Map2, Zip, LiftA/LiftM, Sequence, Traverse ...)
                    H('monad_statet', 'oracle_monad', 3000, 150000, oracle_args=['statet'], spec_level=True),
